@@ -35,3 +35,7 @@ Definition v_next (it : val) : val :=
   match it with VC _ (x :: _) => VC "Some" [x] | _ => VC "None" [] end.
 Definition v_rest (it : val) : val :=
   match it with VC c (_ :: l) => VC c l | _ => it end.
+
+(* Duration * integer *)
+Definition v_mul (a b : val) : val :=
+  match a, b with VN x, VN y => VN (x * y) | _, _ => VStuck end.
